@@ -11,6 +11,9 @@ type TreeContext struct {
 	cacheClient  TreeCacheClient
 	schemaClient schemaClient.SchemaClientBound
 	actualOwner  string
+	// owners holds all the owners that have been the actual owner, these are
+	// the owners that take part in the ongoing transaction
+	owners map[string]struct{}
 }
 
 func NewTreeContext(cc TreeCacheClient, sc schemaClient.SchemaClientBound, actualOwner string) *TreeContext {
@@ -18,6 +21,7 @@ func NewTreeContext(cc TreeCacheClient, sc schemaClient.SchemaClientBound, actua
 		cacheClient:  cc,
 		schemaClient: sc,
 		actualOwner:  actualOwner,
+		owners:       map[string]struct{}{actualOwner: {}},
 	}
 }
 
@@ -46,4 +50,13 @@ func (t *TreeContext) GetActualOwner() string {
 
 func (t *TreeContext) SetActualOwner(owner string) {
 	t.actualOwner = owner
+	if t.owners == nil {
+		t.owners = map[string]struct{}{}
+	}
+	t.owners[owner] = struct{}{}
+}
+
+// GetOwners returns all the owners that have been set as the actual owner
+func (t *TreeContext) GetOwners() map[string]struct{} {
+	return t.owners
 }
